@@ -88,6 +88,41 @@ def run(p, led, tier):
             else:
                 led.fail("C13-R2", key, where(m, n), "queue accessed outside the lock in a method that rewrites it: a concurrent ingest/digest can lose or duplicate items")
 
+    # ---------------- R2b one critical section per operation: the snapshot of what is taken and the cut of the queue
+    # (every read-for-update and write of the queue by one operation) lie in one and the same region of the lock
+    led.rule("C13-R2b", "each operation that rewrites the queue touches it inside one single region of the lock (no snapshot-then-cut across regions)", 2)
+
+    def touches_queue(g, seen=()):
+        if any(is_self_attr(n, Q) for n in walk_no_nested(g.node)):
+            return True
+        return False
+    for m in la.methods():
+        if m.name == "__init__" or m.key in held_entry:
+            continue
+        regs = regions(m, la.locks)
+        if not regs:
+            continue
+        touching = []
+        for w, a in regs:
+            direct = any(is_self_attr(n, Q) for st in w.body for n in ast.walk(st))
+            via = False
+            for st in w.body:
+                for c, g in la.self_calls(m, within=st):
+                    if g.key in held_entry and touches_queue(g):
+                        via = True
+            if direct or via:
+                touching.append(w)
+        rewrites = bool([n for k, n in attr_writes(m.node, Q, "self")]) or any(g.key in held_entry and list(attr_writes(g.node, Q, "self")) for st in m.node.body for c, g in la.self_calls(m, within=st))
+        if not touching or not rewrites:
+            continue
+        key = f"{m.qual} ▸ one critical section for the queue"
+        if len(touching) == 1:
+            led.ok("C13-R2b", key, where(m, touching[0]), "all of the method's accesses to the queue lie in one region of the lock")
+        else:
+            led.fail("C13-R2b", key, where(m, touching[1]),
+                     f"the queue is read in one region of the lock and rewritten in another ({len(touching)} regions): between them a concurrent digest / ingest changes the queue, so items are processed twice or dropped unprocessed",
+                     witness="thread A snapshots the batch, thread B digests the same items, A then cuts the queue: items digested twice, toxic callback twice")
+
     # ---------------- R3–R6: sequential conservation tables (abstract interpretation; adversarial digesters / callback)
     _semantic(p, led, lys, res, Q)
 
